@@ -127,9 +127,32 @@ fn unary(c: &mut Collector, x: u64, nth_full: bool) {
     ck!("from_iter-squares", col.to_u64(), x);
     let col2: chess_bitboard::BitBoard = members.iter().map(|i| chess_bitboard::BitBoard::from_pos(pos(*i))).collect();
     ck!("from_iter-boards", col2.to_u64(), x);
+    // collection from long iterators with repeated squares (more than 64 items)
+    if !members.is_empty() {
+        let long: Vec<u8> = members.iter().cycle().take(members.len() * 3 + 70).copied().collect();
+        let mut rev = long.clone();
+        rev.reverse();
+        let c1: chess_bitboard::BitBoard = long.iter().map(|i| pos(*i)).collect();
+        let c2: chess_bitboard::BitBoard = rev.iter().map(|i| chess_bitboard::BitBoard::from_pos(pos(*i))).collect();
+        // a new square first appearing after item 64
+        let extra = (0..64u8).find(|i| !s[*i as usize]);
+        let c3: chess_bitboard::BitBoard = std::iter::repeat(pos(members[0])).take(70).chain(extra.map(pos)).collect();
+        ck!("from_iter-squares-long", c1.to_u64(), x);
+        ck!("from_iter-boards-long", c2.to_u64(), x);
+        ck!("from_iter-squares-late-newcomer", c3.to_u64(), (1u64 << members[0]) | extra.map(|e| 1u64 << e).unwrap_or(0));
+    }
     // nth: value equals skipping n elements; after a Some the remainder is the model remainder
     let ns: Vec<usize> = if nth_full {
-        (0..=70).chain([100, 127, 128, 255, 256, 1000, usize::MAX / 2, usize::MAX]).collect()
+        // small indices, then every power-of-two boundary plus a small offset: an index truncated to
+        // 8/16/32 bits (or shifted out) would alias one of the first elements
+        let mut v: Vec<usize> = (0..=70).chain([100, 127, 128, 255, 256, 1000, usize::MAX / 2, usize::MAX]).collect();
+        for bit in [6u32, 7, 8, 15, 16, 24, 31, 32, 33, 40, 48, 56, 62, 63] {
+            for k in [0usize, 1, members.len().saturating_sub(1), members.len()] {
+                v.push((1usize << bit).wrapping_add(k));
+                v.push((1usize << bit).wrapping_sub(1).wrapping_add(k));
+            }
+        }
+        v
     } else {
         vec![0, 1, members.len().saturating_sub(1), members.len(), members.len() + 1, 63, 64, 65]
     };
